@@ -24,6 +24,24 @@ func derefOperand(in ssa.Instruction) ssa.Value {
 				return x.Common().Value // call of a nil func value
 			}
 		}
+		if callee := x.Common().StaticCallee(); callee != nil && callee.Signature.Recv() != nil && len(callee.Params) > 0 && len(callee.Blocks) > 0 {
+			// a method that touches *receiver in its entry block panics on a nil receiver
+			recv := callee.Params[0]
+			if _, isPtr := recv.Type().Underlying().(*types.Pointer); isPtr {
+				for _, y := range callee.Blocks[0].Instrs {
+					switch z := y.(type) {
+					case *ssa.FieldAddr:
+						if z.X == ssa.Value(recv) {
+							return x.Common().Args[0]
+						}
+					case *ssa.UnOp:
+						if z.Op == token.MUL && z.X == ssa.Value(recv) {
+							return x.Common().Args[0]
+						}
+					}
+				}
+			}
+		}
 	case *ssa.FieldAddr:
 		return x.X
 	case *ssa.UnOp:
@@ -89,6 +107,19 @@ func c12NilContradiction(c *Ctx) {
 				return
 			}
 			for _, fc := range factsAt(in.Block()) {
+				// the zero value of a failed comma-ok type assertion (pointer / interface) is nil
+				if ex, isEx := fc.V.(*ssa.Extract); isEx && ex.Index == 1 && !fc.Pol {
+					if ta, isTA := ex.Tuple.(*ssa.TypeAssert); isTA && ta.CommaOk {
+						if v0, isV0 := strip(v).(*ssa.Extract); isV0 && v0.Tuple == ssa.Value(ta) && v0.Index == 0 {
+							switch v0.Type().Underlying().(type) {
+							case *types.Pointer, *types.Interface:
+								n++
+								c.bad(fmt.Sprintf("%s/nil-use.%d", fname, n), c.ipos(in), "the result of the type assertion at "+c.ipos(fc.If)+" is used here on the edge where the assertion failed (it is nil there): panic whenever that edge is taken")
+							}
+						}
+					}
+					continue
+				}
 				op, x, y, ok := cmpFact(fc)
 				if !ok || (op != token.EQL && op != token.NEQ) {
 					continue
